@@ -80,10 +80,10 @@ def _one(item):
 def main(tier):
     ck = vcheck.Check("C01", "model_checking", tier)
     if tier == "thorough":
-        runs = [["matrix", 6, 1], ["bfs", "unitary", 3, 4], ["bfs", "unitary", 4, 3]]
+        runs = [["matrix", 7, 1], ["bfs", "unitary", 3, 4], ["bfs", "unitary", 4, 3], ["bfs", "unitary", 5, 2]]
         nmax = 3
     else:
-        runs = [["matrix", 4, 4], ["bfs", "unitary", 3, 3]]
+        runs = [["matrix", 6, 4], ["bfs", "unitary", 3, 3]]
         nmax = 3
     res = simlevel.run_all(runs)
     simlevel.report(ck, res, {"C01"})
